@@ -162,3 +162,13 @@ class Result:
 
 def stable_hash(obj) -> str:
     return hashlib.sha1(json.dumps(obj, sort_keys=True, default=str).encode()).hexdigest()[:12]
+
+
+def pmap(func, jobs, chunksize=1):
+    """map over the jobs with a process pool (all cores), or in this process when VERIF_PROCS=1 (coverage measurement, debugging)"""
+    import multiprocessing as mp
+    procs = int(os.environ.get("VERIF_PROCS", "0") or 0) or min(16, os.cpu_count() or 4)
+    if procs <= 1:
+        return [func(j) for j in jobs]
+    with mp.Pool(procs) as pool:
+        return pool.map(func, jobs, chunksize=chunksize)
